@@ -208,7 +208,10 @@ def run_case(case):
     if klass == 'TemplateBuild':
         need = N * max(amax * amax, 1.0)
     if need >= 2 ** 52:
-        return core.inconclusive('workload outside the exact regime')
+        # not an execution: the generator refuses a workload it could not judge exactly (counted, neither held nor violated)
+        r = core.held(0, nontrivial=False, counters=dict(t.counters, generator_rejected_outside_exact_regime=1))
+        r['metrics'] = {}
+        return r
     precision = 'float64' if need >= 2 ** 24 or rng.random() < 0.5 else 'float32'
     kw = dict(selection_function=sf, model=model, precision=precision)
     disc = None
